@@ -163,10 +163,15 @@ class FreeEngine:
         return torch.tensor(tree._probs, dtype=torch.float32)
 
 
+class _TooLong(Exception):
+    """raised by the recorder when play_one_game asks for more analyses than any game within the ply limit can need"""
+
+
 class Recorder:
     """wraps an engine; notes what play_one_game reads from it"""
-    def __init__(self, inner):
+    def __init__(self, inner, max_calls=None):
         self.inner = inner
+        self.max_calls = max_calls
         self.rows = []          # per analyze: dict(position, node, probs)
         self.picks = []         # values torch.multinomial returned to play_one_game
         self.in_analyze = False
@@ -180,6 +185,8 @@ class Recorder:
         self.inner.stats = v
 
     def analyze(self, position):
+        if self.max_calls is not None and len(self.rows) >= self.max_calls:
+            raise _TooLong(f"{len(self.rows)} positions analysed with ply_limit {self.max_calls - 3}: the game does not stop")
         self.in_analyze = True
         try:
             node = self.inner.analyze(position)
@@ -351,7 +358,7 @@ def _cfg(size, thr, limit):
 def _play(size, thr, limit, engine, forced=None):
     """runs the real play_one_game; returns the record compared with the model"""
     from tak import self_play
-    rec = Recorder(engine)
+    rec = Recorder(engine, max_calls=max(0, int(limit)) + 3)      # plies 0..limit: at most limit + 1 analyses
     crash = None
     with _patched_multinomial(rec, forced):
         try:
@@ -431,6 +438,8 @@ def _oracle(g):
     """returns (ending class, [violated clauses]) using only tak's own move/winner"""
     import tak
     bad = []
+    if g.get("crash") and g["crash"].startswith("_TooLong"):
+        return "runaway", ["stop:the game did not stop when the ply limit was exceeded (" + g["crash"] + ")"]
     if g.get("crash"):
         a = g["answers"][-1] if g["answers"] else None
         if a is not None and not a["cands"] and len(g["answers"]) == len(g["nodes"]) and abs(a["v_zero"]) < g["thr"]:
